@@ -7,7 +7,7 @@
  * is itself the input of the model/spec driver (extract/dd_main.ml).
  *
  *   open N | reopen | cache B | sync
- *   put T R L | dup NT NR OT OR | del T R | reuse T R
+ *   put T R L | dup NT NR OT OR | del T R | reuse T R | fill T lo hi OT OR (bulk Hdupdd, library only)
  *   newref | tagnewref T | number T | exist T R | check T R | length T R
  *   findall T R D      (D 1 forward, 2 backward: iterate Hfind from the start until FAIL)
  *   dump               (DD table slot by slot, private header only)
@@ -106,6 +106,14 @@ int main(int argc, char **argv)
         else if (!strcmp(op, "reuse")) {
             long t = atol(a[0]), r = argref(a[1]);
             printf("reuse %ld %ld => %s\n", t, r, HDreuse_tagref(fid, (uint16)t, (uint16)r) == FAIL ? "fail" : "ok");
+        }
+        else if (!strcmp(op, "fill")) { /* fill T lo hi OT OR: Hdupdd(T, r, OT, OR) for r = lo..hi (bulk; harness-only) */
+            long t = atol(a[0]), lo = atol(a[1]), hi = atol(a[2]), nok = 0, r;
+            char ot[32], orf[32];
+            sscanf(line, "%*s %*s %*s %*s %31s %31s", ot, orf);
+            for (r = lo; r <= hi; r++)
+                if (Hdupdd(fid, (uint16)t, (uint16)r, (uint16)atol(ot), (uint16)atol(orf)) != FAIL) nok++;
+            printf("fill %ld %ld %ld %s %s => %ld\n", t, lo, hi, ot, orf, nok);
         }
         else if (!strcmp(op, "newref")) {
             lastref = (long)Hnewref(fid);
